@@ -67,7 +67,8 @@ let dump_tok (st : spec_store) =
 
 (* ---- parsing of the history *)
 let meth_of = function "GET" -> GET | "DELETE" -> DELETE | "PATCH" -> PATCH | _ -> MOther
-let body_of = function "t" -> BTrue | "f" -> BFalse | _ -> BBad
+(* body field: content (t|f|b|e) + framing + headers; only the content reaches the handler model *)
+let body_of (s : string) = if s = "" then BBad else match s.[0] with 't' -> BTrue | 'f' -> BFalse | _ -> BBad
 
 let parse_op (base : n list list) (o : string) : hop =
   match sp ':' o with
